@@ -122,7 +122,7 @@ def finish(res, level_text, rule, assumptions, wall, exhaustive=True):
     os.makedirs(os.path.join(VERIF, "evidence"), exist_ok=True)
     printed = set()
     for b in violations:
-        key = short_hash([b["case"], b.get("opts"), b.get("steps")])
+        key = short_hash([b.get("case"), b.get("opts"), b.get("steps"), b.get("handle")])
         if key in printed:
             continue
         printed.add(key)
